@@ -161,6 +161,10 @@ func writeCategoryNameFile(catName, dirName string) error {
 // AddTimeBucket adds a (possibly) new data item to a rootpath. Takes an existing catalog directory and
 // adds the new data item to that data directory. This is used only for a root category directory.
 func (d *Directory) AddTimeBucket(tbk *io.TimeBucketKey, f *io.TimeBucketInfo) (err error) {
+	// the key's items become directory names: refuse anything that could leave the root directory
+	if err = tbk.Validate(); err != nil {
+		return err
+	}
 	d.Lock()
 	defer d.Unlock()
 
